@@ -159,7 +159,13 @@ def gen_history(rng, cfg, hid, first, family='plain'):
         maxn = {1: 6, 2: 3, 3: 2}[len(names)]
     if tiny:
         ue = -21
-    elif method == 'order1' or cfg['kernel'] != 'probe':
+    elif cfg['kernel'] != 'probe':
+        # (not larger: the smallest positive lattice weight of QuinticSpline
+        # would come within reach of the absolute 1e-12 threshold,
+        # C14-abs-weight-threshold, whose signature is decided for the probe
+        # kernel only)
+        ue = rng.choice((0, 0, -1, -2))
+    elif method == 'order1':
         ue = rng.choice((0, 0, 1, -2))
     else:
         ue = rng.choice((0, 0, -3, 2, 5, -7))
@@ -354,7 +360,7 @@ def universe_sessions(chk, rng, per_history=16):
 # ---------------------------------------------------------------------------
 # the real code
 def crash_value():
-    return dict(k='crash', i=0, n=0, d=1, e=0)
+    return dict(k='crash', i=0, n=0, d=1, e=0, q=0, qok=False)
 
 
 def read_lines(path):
